@@ -6,6 +6,8 @@
 //	repeat      one retained wrapper called 2..4 times in sequence; its body contains a `defer`
 //	concurrent  two host goroutines call one retained wrapper with distinct arguments; the script function passes a
 //	            barrier inside a host callback, so that both invocations are active at the same time
+//	recvbind    the wrapper of a METHOD of a script value (a method value handed to the host, a deferred method call): the
+//	            receiver variable is assigned another value after the wrapper was made and before it is called
 //
 // impl = the wrapper as described; twin = the same recursion / sequence written purely in the script; ref = compiled Go.
 package main
@@ -33,6 +35,7 @@ type retainT struct {
 	f2    func(int, Pt) Pt
 	fd    func(string, int) int
 	fc    func(int, string) (int, string)
+	fm    func(int) int
 	count int
 	cond  *sync.Cond
 	need  int
@@ -119,6 +122,36 @@ func retainScript(c *Case, twin bool) string {
 			}
 			s.run = append(s.run, fmt.Sprintf("r%d := %s", i/2, call), fmt.Sprintf(`hp.Rec("res.%d", "int", r%d)`, i/2, i/2))
 		}
+	case "recvbind":
+		s.decls = append(s.decls, fmt.Sprintf(`type Acc struct{ N int }
+func (a Acc) Get(k int) int { hp.Rec("Get.N", "int", a.N); return a.N*%d + k }
+func (a *Acc) Add(k int) int { a.N += k; return a.N }
+func (a Acc) Show() { hp.Rec("Show.N", "int", a.N) }
+func Setup() {}`, k1))
+		a0, a1, k := c.Args[0].I, c.Args[1].I, c.Args[2].I
+		reg := func(e string) string {
+			if twin {
+				return "mv = " + e
+			}
+			return "hp.RegM(" + e + ")"
+		}
+		fireM := fmt.Sprintf("hp.FireM(%d)", k)
+		if twin {
+			fireM = fmt.Sprintf("mv(%d)", k)
+			s.run = append(s.run, "var mv func(int) int")
+		}
+		s.run = append(s.run,
+			// value receiver: copied when the method value is made
+			fmt.Sprintf("x := Acc{N: %d}", a0), reg("x.Get"), fmt.Sprintf("x = Acc{N: %d}", a1),
+			"r0 := "+fireM, `hp.Rec("res.0", "int", r0)`, `hp.Rec("x.N", "int", x.N)`,
+			// pointer receiver: the pointer the variable held
+			fmt.Sprintf("p := &Acc{N: %d}", a0), "q := p", reg("p.Add"), fmt.Sprintf("p = &Acc{N: %d}", a1),
+			"r1 := "+fireM, `hp.Rec("res.1", "int", r1)`, `hp.Rec("q.N", "int", q.N)`, `hp.Rec("p.N", "int", p.N)`,
+			// pointer-receiver method of an addressable value: the address of the variable
+			fmt.Sprintf("z := Acc{N: %d}", a0), reg("z.Add"), fmt.Sprintf("z = Acc{N: %d}", a1),
+			"r2 := "+fireM, `hp.Rec("res.2", "int", r2)`, `hp.Rec("z.N", "int", z.N)`,
+			// deferred call of a value-receiver method
+			fmt.Sprintf("func() { y := Acc{N: %d}; defer y.Show(); y = Acc{N: %d}; hp.Rec(\"y.N\", \"int\", y.N) }()", a0, a1))
 	case "concurrent":
 		s.decls = append(s.decls, fmt.Sprintf(`func R(a int, s string) (int, string) {
 	loc := a*%d + %d
@@ -194,6 +227,50 @@ func (rt *retainT) native() {
 	}
 }
 
+// the native twin of the script type Acc (mode recvbind)
+type acc struct {
+	N  int
+	ri func(string, interface{})
+	k1 int
+}
+
+func (a acc) Get(k int) int  { a.ri("Get.N", a.N); return a.N*a.k1 + k }
+func (a *acc) Add(k int) int { a.N += k; return a.N }
+func (a acc) Show()          { a.ri("Show.N", a.N) }
+
+// recvbind: the reference of mode recvbind — what compiled Go does with the same statements.
+func (rt *retainT) recvbind() {
+	c, env := rt.c, rt.env
+	ri := func(tag string, v interface{}) { env.recordStatic(tag, nil, v) }
+	mk := func(n int64) acc { return acc{N: int(n), ri: ri, k1: c.k(0)} }
+	a0, a1, k := c.Args[0].I, c.Args[1].I, int(c.Args[2].I)
+	x := mk(a0)
+	rt.fm = x.Get
+	x = mk(a1)
+	ri("res.0", rt.fm(k))
+	ri("x.N", x.N)
+	p := new(acc)
+	*p = mk(a0)
+	q := p
+	rt.fm = p.Add
+	p = new(acc)
+	*p = mk(a1)
+	ri("res.1", rt.fm(k))
+	ri("q.N", q.N)
+	ri("p.N", p.N)
+	z := mk(a0)
+	rt.fm = z.Add
+	z = mk(a1)
+	ri("res.2", rt.fm(k))
+	ri("z.N", z.N)
+	func() {
+		y := mk(a0)
+		defer y.Show()
+		y = mk(a1)
+		ri("y.N", y.N)
+	}()
+}
+
 // barrier: wait until `need` invocations are inside (or 3 s have passed: an implementation that serialises the calls).
 func (rt *retainT) barrier() {
 	rt.mu.Lock()
@@ -218,6 +295,8 @@ func (rt *retainT) exports() map[string]reflect.Value {
 		"Reg2":    reflect.ValueOf(func(f func(int, Pt) Pt) { rt.f2 = f }),
 		"RegD":    reflect.ValueOf(func(f func(string, int) int) { rt.fd = f }),
 		"RegC":    reflect.ValueOf(func(f func(int, string) (int, string)) { rt.fc = f }),
+		"RegM":    reflect.ValueOf(func(f func(int) int) { rt.fm = f }),
+		"FireM":   reflect.ValueOf(func(k int) int { return rt.fm(k) }),
 		"Fire0":   reflect.ValueOf(func(n, a int) int { return rt.f0(n, a) }),
 		"Fire1":   reflect.ValueOf(func(n, a int, s string) (int, string) { return rt.f1(n, a, s) }),
 		"Fire2":   reflect.ValueOf(func(n int, p Pt) Pt { return rt.f2(n, p) }),
@@ -230,6 +309,8 @@ func (rt *retainT) exports() map[string]reflect.Value {
 func (rt *retainT) drive() {
 	c, env := rt.c, rt.env
 	switch c.Mode {
+	case "recvbind":
+		rt.recvbind()
 	case "reenter":
 		switch c.Tmpl {
 		case 0:
@@ -382,13 +463,21 @@ func implRetain(c *Case, env *nativeEnv) outcome {
 func (g *genCfg) genRetainCase(id string) *Case {
 	r := g.rng
 	c := &Case{ID: id, Dir: "retain"}
-	c.Mode = []string{"reenter", "reenter", "reenter", "repeat", "concurrent"}[r.Intn(5)]
+	c.Mode = []string{"reenter", "reenter", "reenter", "repeat", "concurrent", "recvbind"}[r.Intn(6)]
 	c.Via = []string{"callback", "eval-qual", "eval-plain", "symbols"}[r.Intn(4)]
 	c.Caller = "host"
 	c.Ks = []int64{int64(2 + r.Intn(7)), int64(r.Intn(50) - 10)}
 	iv := func() *Val { return &Val{T: typeByID("int"), I: int64(r.Intn(2000) - 1000)} }
 	sv := func() *Val { return &Val{T: typeByID("string"), S: []string{"", "a", "go", "yaegi", "q"}[r.Intn(5)]} }
 	switch c.Mode {
+	case "recvbind":
+		c.Via, c.Caller = "callback", "script"
+		a0 := iv()
+		a1 := iv()
+		for a1.I == a0.I {
+			a1 = iv()
+		}
+		c.Args = []*Val{a0, a1, iv()}
 	case "reenter":
 		c.Tmpl = r.Intn(3)
 		c.Depth = 1 + r.Intn(5)
